@@ -34,6 +34,13 @@ class LoopSpec:
         self.on_exit = on_exit      # ghost step at loop exit: may emit obligations and update ghost state
 
 
+class Unwind:
+    """A loop that provably runs at most n times: it is unrolled n times and the obligation loop<k>.unwinding-<n>-suffices
+    states that no execution reaches iteration n+1 (complete when that passes - an unwinding assertion, not a bound)."""
+    def __init__(self, n):
+        self.n = n
+
+
 class Contract:
     def __init__(self, target, schema, self_obj, params, cases, requires=None, modifies=(), loops=None, props=(),
                  must_fail=None, also=(), note='', self_rec=None, app_raises=None, env_hook=None, trusted=False,
